@@ -288,6 +288,21 @@ def check_decompile(ctx: Ctx, fi: Optional[FuncInfo], step: FuncInfo):
     rng = sa.args[2] if len(sa.args) > 2 else None
     ok = isinstance(rng, ast.Tuple) and len(rng.elts) == 2 and "start" in norm(rng.elts[0])
     ctx.check(ok, "TS-SECTION", fi, "section range = (start index, end index)", norm(rng) if rng is not None else "", "the section does not record (start, end)", sa)
+    # end index: one past the last classical gate = current index, minus one trailing no-op (the form confirmed on
+    # this tree; any other arithmetic is outside the tables and is reported as undecided, not as a pass)
+    if isinstance(rng, ast.Tuple) and len(rng.elts) == 2 and isinstance(rng.elts[1], ast.Name):
+        endv = rng.elts[1].id
+        defs = [n for n in ast.walk(loop) if isinstance(n, (ast.Assign, ast.AugAssign)) and any(isinstance(t, ast.Name) and t.id == endv for t in (n.targets if isinstance(n, ast.Assign) else [n.target]))]
+        shapes = sorted(norm(d).replace(" ", "") for d in defs)
+        want = sorted([f"{endv}={idx}", f"{endv}-=1"])
+        if shapes != want:
+            raise AnchorError(fi.short, f"the section end index is computed as {shapes}, a form outside the tables ({want}): cannot decide that the reported range covers exactly the gates of the run")
+        dec = [d for d in defs if isinstance(d, ast.AugAssign)][0]
+        par_if = fi.pm.get(dec)
+        ok = isinstance(par_if, ast.If) and "NopGate" in norm(par_if.test) and f"[{idx} - 1]" in norm(par_if.test)
+        ctx.check(ok, "TS-SECTION", fi, "end index excludes a no-op directly before the closing gate", norm(par_if.test)[:70] if isinstance(par_if, ast.If) else "", "the end index is decremented under a condition other than `the previous gate is a no-op`", dec)
+    else:
+        raise AnchorError(fi.short, "section range is not (start, <name>)")
     # buffer reset after flush; start index recorded when the buffer opens
     resets = [n for n in ast.walk(loop) if isinstance(n, ast.Assign) and norm(n.targets[0]) == buf and isinstance(n.value, ast.List) and not n.value.elts]
     ctx.check(len(resets) >= 1, "TS-SECTION", fi, "buffer emptied after a section is reported", "", "the gate buffer is not reset after a flush: the next section repeats the previous gates", loop)
